@@ -201,8 +201,9 @@ def rule_backfill_siblings(ctx):
             if n.kind != "test":
                 continue
             t = n.ast
-            if isinstance(t, ast.Compare) and len(t.ops) == 1 and isinstance(t.ops[0], ast.Gt) \
-                    and norm(t.comparators[0]).endswith("first_point.t") and norm(t.left).endswith("[0, 0]"):
+            # canonical orientation (core/program.py): `X[0, 0] > first_point.t` is read as `first_point.t < X[0, 0]`
+            if isinstance(t, ast.Compare) and len(t.ops) == 1 and isinstance(t.ops[0], ast.Lt) \
+                    and norm(t.left).endswith("first_point.t") and norm(t.comparators[0]).endswith("[0, 0]"):
                 # T branch must prepend with vstack
                 tb = [m for m, l in n.succ if l == "T"]
                 if tb and tb[0].ast is not None and "vstack" in norm(tb[0].ast) and "first_point.t" in norm(tb[0].ast):
@@ -210,8 +211,8 @@ def rule_backfill_siblings(ctx):
             # allow `first_point is not None and X[0,0] > first_point.t`
             if isinstance(t, ast.BoolOp) and isinstance(t.op, ast.And):
                 for v in t.values:
-                    if isinstance(v, ast.Compare) and len(v.ops) == 1 and isinstance(v.ops[0], ast.Gt) \
-                            and norm(v.comparators[0]).endswith("first_point.t") and norm(v.left).endswith("[0, 0]"):
+                    if isinstance(v, ast.Compare) and len(v.ops) == 1 and isinstance(v.ops[0], ast.Lt) \
+                            and norm(v.left).endswith("first_point.t") and norm(v.comparators[0]).endswith("[0, 0]"):
                         tb = [m for m, l in n.succ if l == "T"]
                         if tb and tb[0].ast is not None and "vstack" in norm(tb[0].ast):
                             backfill.append(n)
